@@ -42,7 +42,12 @@ def trun (s : TSt) (es : List TEv) : Option TSt := es.foldlM tstep s
 One worker slot.  The worker goes `starting → alive → exiting → gone`; a restart installs a new worker object
 (`starting` again, generation + 1); a SIGKILL can hit at any phase in which the process exists.
 The scan performs its reads one at a time, in the order of the repaired code:
-flag, OS liveness of the captured object, flag again, slot identity. -/
+flag, whether the captured object knows that it was started (`ident is not None`), OS liveness of the captured object, flag
+again, slot identity.
+
+`Process.start()` is not atomic: the child process runs (and marks itself alive) as soon as it is forked, but the parent's
+process object answers `is_alive() == False` / `ident is None` until `start()` has returned in the thread that called it
+(`known`). -/
 
 inductive Phase | starting | alive | exiting | gone
   deriving Repr, DecidableEq
@@ -53,6 +58,7 @@ structure WSt where
   osAlive  : Bool := true        -- the process of the CURRENT worker object exists
   killed   : Bool := false       -- ghost: a SIGKILL hit the current worker object
   gen      : Nat := 0            -- which worker object is installed in the slot
+  known    : Bool := false       -- start() has returned: the current worker object knows its process (ident is not None)
   deriving Repr, DecidableEq
 
 /-- progress of one pass of the scan over this slot -/
@@ -60,6 +66,7 @@ inductive Scan
   | idle
   | gotObj (gen : Nat)                                  -- worker = self._workers[w]
   | gotFlag (gen : Nat) (f1 : Bool)                     -- is_worker_alive(w)
+  | gotId (gen : Nat) (f1 : Bool)                       -- worker.ident is not None
   | gotOs (gen : Nat) (f1 : Bool) (os : Bool)           -- worker.is_alive()
   | gotFlag2 (gen : Nat) (f1 : Bool) (os : Bool) (f2 : Bool)
   | verdict (died : Bool)
@@ -73,6 +80,7 @@ structure DSt where
   deriving Repr, DecidableEq
 
 inductive DEv
+  | startReturns     -- Process.start() returns in the thread that started the current worker object
   | signalAlive      -- run(): signal_worker_alive
   | signalDead       -- run() finally: signal_worker_dead
   | processExit      -- the process ends after run() returned
@@ -83,6 +91,8 @@ inductive DEv
   deriving Repr, DecidableEq
 
 def dstep (s : DSt) : DEv → Option DSt
+  | .startReturns =>
+    if s.w.known then none else some { s with w := { s.w with known := true } }
   | .signalAlive =>
     if s.w.phase = .starting ∧ s.w.osAlive then some { s with w := { s.w with phase := .alive, flag := true } } else none
   | .signalDead =>
@@ -90,8 +100,8 @@ def dstep (s : DSt) : DEv → Option DSt
   | .processExit =>
     if s.w.phase = .exiting ∧ s.w.osAlive then some { s with w := { s.w with phase := .gone, osAlive := false } } else none
   | .restart =>
-    if s.w.phase = .gone ∧ ¬ s.w.killed then
-      some { s with w := { phase := .starting, flag := s.w.flag, osAlive := true, killed := false, gen := s.w.gen + 1 },
+    if s.w.phase = .gone ∧ ¬ s.w.killed ∧ s.w.known then      -- (the old object is joined first: it was started)
+      some { s with w := { phase := .starting, flag := s.w.flag, osAlive := true, killed := false, gen := s.w.gen + 1, known := false },
                     oldOsAlive := false }
     else none
   | .kill =>
@@ -104,8 +114,13 @@ def dstep (s : DSt) : DEv → Option DSt
     | .idle => some { s with scan := .gotObj s.w.gen }
     | .gotObj g => some { s with scan := .gotFlag g s.w.flag }
     | .gotFlag g f1 =>
-      -- liveness of the captured object: the current one if still installed, otherwise the old (joined) one
-      let os := if g = s.w.gen then s.w.osAlive else s.oldOsAlive
+      -- does the captured object know that it was started?  (the old, joined one does)  If not, it is not looked at further
+      let idKnown := if g = s.w.gen then s.w.known else true
+      if idKnown then some { s with scan := .gotId g f1 } else some { s with scan := .verdict false }
+    | .gotId g f1 =>
+      -- liveness of the captured object: the current one if still installed, otherwise the old (joined) one; an object that
+      -- does not know its process yet answers False
+      let os := if g = s.w.gen then (s.w.known && s.w.osAlive) else s.oldOsAlive
       some { s with scan := .gotOs g f1 os }
     | .gotOs g f1 os =>
       if f1 && !os then some { s with scan := .gotFlag2 g f1 os s.w.flag }
